@@ -390,13 +390,26 @@ func (x *c02Run) nsRootTokens(ns, nsTag string) {
 		x.r.Count("root_policy_token_from_parent_namespace_created", 1)
 		x.w.Toks = append(x.w.Toks, &c02Tok{Name: nsTag + "/nsroot-by-parent", Kind: "ns-root", NS: ns, ID: resp.Auth.ClientToken, Accessor: resp.Auth.Accessor, Root: true})
 	}
-	for i, data := range []map[string]any{{"ttl": "1h"}, {"ttl": "1h", "no_parent": true}} {
-		data["policies"] = []string{"root"}
-		c, why := x.tryTok(fmt.Sprintf("%s/nsroot-child%d", nsTag, i), "ns-root", ns, data, "", gr.ID, "")
+	x.rootChildren(gr, nsTag+"/nsroot-child")
+}
+
+// rootChildren: what a namespace root token can hand on: a child and an orphan with policies=[root],
+// created through the token API inside the namespace.
+func (x *c02Run) rootChildren(gr *c02Tok, name string) {
+	for i, path := range []string{"auth/token/create", "auth/token/create-orphan"} {
+		c, why := x.tryTok(fmt.Sprintf("%s%d", name, i), "ns-root", gr.NS, map[string]any{"policies": []string{"root"}, "ttl": "1h"}, path, gr.ID, "")
 		if c == nil {
-			x.t.Fatalf("verif: child of the namespace root token of %q refused: %s", ns, why)
+			x.t.Fatalf("verif: %s with policies=[root] by the root token of namespace %q refused: %s", path, gr.NS, why)
 		}
 		c.Root, c.Policies = true, nil
+	}
+	// observation outside C02: no_parent=true on auth/token/create asks TokenStore for "root or sudo"; for a
+	// namespace root token that check (SudoPrivilege, evaluated against the root namespace) says no
+	if c, _ := x.tryTok(name+"-noparent", "ns-root", gr.NS, map[string]any{"policies": []string{"root"}, "ttl": "1h", "no_parent": true}, "", gr.ID, ""); c != nil {
+		c.Root, c.Policies = true, nil
+		x.r.Count("namespace_root_token_may_use_no_parent", 1)
+	} else {
+		x.r.Count("namespace_root_token_refused_no_parent", 1)
 	}
 }
 
@@ -826,14 +839,7 @@ func TestVerif_C02_NamespaceRoot(t *testing.T) {
 			r.Count("root_generation_ceremonies", 1)
 			gr := &c02Tok{Name: tag + "/generated-root", Kind: "ns-root", NS: ns, ID: id, Root: true}
 			x.w.Toks = append(x.w.Toks, gr)
-			for i, data := range []map[string]any{{"ttl": "1h"}, {"ttl": "1h", "no_parent": true}} {
-				data["policies"] = []string{"root"}
-				c, why := x.tryTok(fmt.Sprintf("%s/generated-root-child%d", tag, i), "ns-root", ns, data, "", gr.ID, "")
-				if c == nil {
-					t.Fatalf("verif: child of the generated root token of %q refused: %s", ns, why)
-				}
-				c.Root, c.Policies = true, nil
-			}
+			x.rootChildren(gr, tag+"/generated-root-child")
 		}
 		x.w.Toks = append(x.w.Toks, &c02Tok{Name: "root", Kind: "root", NS: "", ID: v.Root, Root: true})
 		x.digest = x.storageDigest()
